@@ -14,6 +14,6 @@ var commonAssume = []string{
 
 func init() {
 	reg(propDef{ID: "C03", Test: "TestC03", Level: "exploration", Shards: [2]int{8, 16}, CapMin: [2]int{10, 60},
-		Rule:   "cases = PRNG(seed) scripts: sequential scripts of 10-40 Send/Recv/Close/inject steps on 1-3 contexts x 1-3 vt peers (harness is every REP peer; injects correct, stale, foreign, duplicate, bit-cleared, short, random-id replies before the correct one on the same pipe), and concurrent histories (sender+receiver goroutine per context, replier goroutine duplicating/reordering across pipes, yield points on) checked per context with porcupine against a one-register model. sendtimeout mode also ends the never-transmitted request by a receive deadline (after a best-effort Send, or while the Send still waits for a connection): afterwards Recv reports the protocol-state error at once and the abandoned request is never transmitted. replyrace: 250 rounds per case in which the reply to the outstanding request is injected at the moment the application supersedes it with a new Send (PRNG offsets, four goroutines keeping the socket lock contended): after that Send returned, Recv must be found parked and then return exactly the new request's reply. non-trivial = a reply was delivered while at least one bad-class reply was injected (seq) / at least one overlapping Send-Recv pair (conc); distinct = hash of (contexts, pipes, arrival-order string of reply classes / outcome string)",
+		Rule:   "cases = PRNG(seed) scripts: sequential scripts of 10-40 Send/Recv/Close/inject steps on 1-3 contexts x 1-3 vt peers (harness is every REP peer; injects correct, stale, foreign, duplicate, bit-cleared, short, random-id replies before the correct one on the same pipe), and concurrent histories (sender+receiver goroutine per context, replier goroutine duplicating/reordering across pipes, yield points on) checked per context with porcupine against a one-register model. sendtimeout mode also ends the never-transmitted request by a receive deadline (after a best-effort Send, or while the Send still waits for a connection): afterwards Recv reports the protocol-state error at once and the abandoned request is never transmitted. replyrace: 250 rounds per case in which the reply to the outstanding request is injected at the moment the application supersedes it with a new Send (PRNG offsets, four goroutines keeping the socket lock contended): after that Send returned, Recv must be found parked and then return exactly the new request's reply. non-trivial = a reply was delivered while at least one bad-class reply was injected (seq) / at least one overlapping Send-Recv pair (conc); distinct = hash of (contexts, pipes, arrival-order string of reply classes / outcome string). sendfail: on 4-8 contexts a blocking Send that waits for a connection (every connection occupied by a slow peer / none connected yet) is made to fail (send deadline, context closed, a concurrent Recv's receive deadline, last peer leaving under fail-no-peers) while other contexts queue best-effort requests before and after it in a PRNG interleaving; afterwards further contexts (fresh ones and those whose Send failed) send, before or after the connections become usable; the harness answers a PRNG subset of the outstanding requests, each answer echoing the header of the request it answers: every Recv must return the answer to its own context's request or run into its receive deadline, never another context's answer, a second Recv reports the protocol-state error, no request whose Send failed is transmitted and no two outstanding requests share an id (non-trivial = a request was accepted behind a parked Send that then failed, a later Send followed and a reply was delivered; distinct = fail mode, wait mode, release order, role counts, answer order/subset)",
 		Assume: commonAssume})
 }
